@@ -38,10 +38,11 @@ type Cell struct {
 	Queue     int     `json:"queue"`
 	Bound     int     `json:"bound"`
 	Startup   string  `json:"startup,omitempty"` // "" once(instances) | const: one instance every 500ms | pause: 1 instance, 1s pause, 1 instance
+	FailMs    int64   `json:"fail_ms,omitempty"` // > 0: a second pool whose provider fails at this instant (the run fails by itself)
 }
 
 func (c Cell) Name() string {
-	return fmt.Sprintf("cli|sig=%s@%v|second=%v|inst=%d|items=%d|rps=%s|shot=%dms|queue=%d|startup=%s", c.Signal, c.SignalMs, c.Second, c.Instances, c.Items, c.RPS, c.ShotMs, c.Queue, c.Startup)
+	return fmt.Sprintf("cli|sig=%s@%v|second=%v|inst=%d|items=%d|rps=%s|shot=%dms|queue=%d|startup=%s", c.Signal, c.SignalMs, c.Second, c.Instances, c.Items, c.RPS, c.ShotMs, c.Queue, c.Startup) + map[bool]string{true: fmt.Sprintf("|poolfail@%dms", c.FailMs)}[c.FailMs > 0]
 }
 
 type exitHook struct{ w *World }
@@ -83,7 +84,7 @@ func (r *run) scenario(x *vs.X) func(end, msg string) error {
 		rps = func() (core.Schedule, error) { return schedule.NewConst(2, 10*time.Second), nil }
 	}
 	metrics := engine.Metrics{Request: &monitoring.Counter{}, Response: &monitoring.Counter{}, InstanceStart: &monitoring.Counter{}, InstanceFinish: &monitoring.Counter{}}
-	eng := engine.New(zap.NewNop(), metrics, engine.Config{Pools: []engine.InstancePoolConfig{{
+	pools := []engine.InstancePoolConfig{{
 		ID:              "p",
 		Provider:        &prov{w: w, sink: make(chan core.Ammo)},
 		Aggregator:      netsample.WrapAggregator(ph),
@@ -91,7 +92,19 @@ func (r *run) scenario(x *vs.X) func(end, msg string) error {
 		NewRPSSchedule:  rps,
 		StartupSchedule: startup(c),
 		DiscardOverflow: true,
-	}}})
+	}}
+	if c.FailMs > 0 {
+		pools = append(pools, engine.InstancePoolConfig{
+			ID:              "q",
+			Provider:        &failProv{w: w, after: time.Duration(c.FailMs) * time.Millisecond, sink: make(chan core.Ammo)},
+			Aggregator:      nullAgg{},
+			NewGun:          func() (core.Gun, error) { return &gun{w: &World{}}, nil },
+			NewRPSSchedule:  func() (core.Schedule, error) { return schedule.NewOnce(1), nil },
+			StartupSchedule: schedule.NewOnce(1),
+			DiscardOverflow: true,
+		})
+	}
+	eng := engine.New(zap.NewNop(), metrics, engine.Config{Pools: pools})
 	log := zap.New(zapcore.NewNopCore(), zap.WithFatalHook(exitHook{w}))
 	log = zap.New(fatalCore{}, zap.WithFatalHook(exitHook{w}))
 	x.Deadline = w.T0.Add(10 * time.Minute)
@@ -192,6 +205,9 @@ func (r *run) check(end, msg string) error {
 	if w.Signalled && w.ReportedAtSignal < must {
 		must = w.ReportedAtSignal
 	}
+	if w.Failed && w.ReportedAtFail < must {
+		must = w.ReportedAtFail // the run was stopped by its own failure first
+	}
 	for _, id := range w.Reported[:must] {
 		if !seen[id] {
 			return fmt.Errorf("LOST-AT-EXIT: sample %d had been reported when the stop was requested but is not in the output at exit (%d lines written, %d reports before the signal, %d before exit)", id, lines, must, w.ExitReported)
@@ -215,6 +231,17 @@ func cells(thorough bool) []Cell {
 			}
 			out = append(out, Cell{Signal: sig, SignalMs: []int64{0, 1}, Instances: inst, Items: 3, RPS: "once5", Queue: 64, Bound: 1})
 			out = append(out, Cell{Signal: sig, SignalMs: []int64{700}, Second: true, Instances: inst, Items: -1, RPS: "const", ShotMs: 5000, Queue: 64, Bound: 1})
+		}
+	}
+	// the run fails by itself (a second pool's provider fails at 700 ms) and a signal arrives around that moment,
+	// while the process is waiting for the other pool's results to be written out
+	for _, sig := range []string{"INT", "TERM", "none"} {
+		for _, shot := range []int64{0, 300} {
+			ms := []int64{699, 700, 701}
+			if sig == "none" {
+				ms = nil
+			}
+			out = append(out, Cell{Signal: sig, SignalMs: ms, Instances: 1, Items: -1, RPS: "const", ShotMs: shot, Queue: 64, Bound: 1, FailMs: 700})
 		}
 	}
 	// normal end of a pool whose instances are still being started when the ammo runs out, with shots in flight
